@@ -142,6 +142,32 @@ def run(P, ctx):
     from rules import leftright
     leftright.check(P, res, "C07-4", r"^fibre::<?spmc::ring_buffer", 2)
     leftright.check_relative(P, res, "C07-5", r"^fibre::<?spmc::ring_buffer", 2)
+    # per-slot waker lists: a publish that writes several slots drains the waker list of each of them
+    rid = "C07-7"
+    res.rule(rid, "every slot a publish writes has its waker list drained: in the broadcast ring a single-value receiver parks on the slot it is about to read (the per-slot "
+                  "`wakers` list), so a publish function that writes payload slots in a loop also takes each written slot's `wakers` lock and drains it in a loop — draining "
+                  "only the first written slot leaves a receiver that consumed value h mid-batch and parked on slot h+1 asleep although its value is published")
+    k7 = 0
+    for b in P.bodies.values():
+        if not b.id.startswith("fibre::spmc::ring_buffer::SpmcShared::<T>::") or "::tests::" in b.id:
+            continue
+        writes = [e for e in b.calls() if e.method == "write" and "MaybeUninit" in e.callee and e.args and ".value" in b.path_of_operand(e.args[0])]
+        if not writes:
+            continue
+        k7 += 1
+        looped_write = any(b.pos_reaches(w.pos, {w.pos}) for w in writes)
+        locks = [e for e in b.calls() if e.method == "lock" and e.args and b.path_of_operand(e.args[0]).endswith(".wakers")]
+        drains = [e for e in b.calls() if e.method in ("drain", "take", "append", "clear") and any(b.producer_call(a) in locks or (b.origin_call(a) in locks) for a in e.args[:1])]
+        if not locks:
+            res.violated(rid, b.id, f"{b.name} writes payload slots but never takes a slot's `wakers` lock: parked single-value receivers are not woken by this publish",
+                         where=writes[0].loc)
+        elif looped_write and not any(b.pos_reaches(l.pos, {l.pos}) for l in locks):
+            res.violated(rid, b.id, f"{b.name} writes several slots in a loop but drains a single slot's waker list ({locks[0].loc}): a receiver parked on a later slot of the "
+                         "batch sleeps on a published value", where=locks[0].loc)
+        else:
+            res.holds(rid, b.id, "one waker-list drain per written slot" if looped_write else "single slot written, its waker list drained", where=locks[0].loc)
+    if k7 < 2:
+        res.violated(rid, "publish-bodies", f"expected the single and the batch publish function of the spmc ring, found {k7}")
     # every receiver gets every value before it is told Disconnected: the spmc instances of the drain-before-Disconnected rule (C04-5), judged for the broadcast ring
     from rules import c04
     sub = Result("C07")
